@@ -16,7 +16,7 @@ pub fn on_assignment(
         element: converted_left,
         ..
     } = left.at_pos(pos).convert_in(ctx, ExprContext::Assignment)?;
-    assignment_post_conversion_validation_rules::validate(&converted_left, &converted_right)?;
+    assignment_post_conversion_validation_rules::validate(&converted_left, &converted_right, pos)?;
     Ok(Statement::assignment(converted_left, converted_right))
 }
 
@@ -61,7 +61,12 @@ mod assignment_post_conversion_validation_rules {
     pub fn validate(
         left_side: &Expression,
         right_side: &ExpressionPos,
+        pos: Position,
     ) -> Result<(), LintErrorPos> {
+        if let Expression::FunctionCall(_, _) = left_side {
+            // an array that has not been dimensioned; code cannot be generated for it
+            return Err(LintError::ArrayNotDefined.at_pos(pos));
+        }
         if right_side.can_cast_to(left_side) {
             Ok(())
         } else {
